@@ -25,7 +25,7 @@ def PcsW (app : App) (want : Nat) (fu : FetchUnit) (D : List Word) (slack : Nat)
   ∃ h, PcChain h D ∧ fu.pc = pcOf (h + D.length) ∧
     (h = want ∨ (app.instrs.length ≤ h ∧ app.instrs.length ≤ want)) ∧
     h + D.length + slack ≤ app.instrs.length + 2 ∧
-    (fu.complete = true → app.instrs.length ≤ h + D.length)
+    (fu.complete = true → NoJmp app → app.instrs.length ≤ h + D.length)
 
 theorem Pcs.weak {app : App} {want : Nat} {fu : FetchUnit} {D : List Word} {slack : Nat} (h : Pcs app want fu D slack) :
     PcsW app want fu D slack := by
@@ -58,10 +58,10 @@ theorem fuEmit_pcs (app : App) (hsm : app.instrs.length < 250) (want : Nat) (fu 
   · split
     · rename_i hge
       simp only [decide_eq_true_eq] at hge
-      intro _; simp only [List.length_append, List.length_cons, List.length_nil]; omega
+      intro _ _; simp only [List.length_append, List.length_cons, List.length_nil]; omega
     · rename_i hlt
-      intro hc
-      have := hcm hc
+      intro hc hj
+      have := hcm hc hj
       simp only [List.length_append, List.length_cons, List.length_nil]; omega
   · split <;> rfl
   · split
@@ -105,7 +105,7 @@ theorem coFetchLoop_pcs (app : App) (hsm : app.instrs.length < 250) (want : Nat)
           have := ih _ fu' mmu1 mmu' _ bus' e3 e1 hr
           exact ⟨this.1, this.2.1.trans e2, this.2.2.1.trans e4, this.2.2.2.trans hl1⟩
 
-theorem fetchCore_pcs (app : App) (hsm : app.instrs.length < 250) (want : Nat) (c : Int)
+theorem fetchCore_pcs0 (app : App) (hsm : app.instrs.length < 250) (want : Nat) (c : Int)
     (fu fu' : FetchUnit) (mmu mmu' : Model.Mmu.Mmu) (bus bus' : BufferedBus Word)
     (hcl : fu.toCleanPending = false) (hbl : bus.bufferLength = 2) (h : Pcs app want fu bus.inside 0)
     (hr : fetchCore app c fu mmu bus = .ok (fu', mmu', bus')) :
@@ -152,6 +152,112 @@ theorem fetchCore_pcs (app : App) (hsm : app.instrs.length < 250) (want : Nat) (
       obtain ⟨e1, e2, e3, e4⟩ := coFetchLoop_pcs app hsm want c 2 _ fu' mmu mmu' bus bus' (by intro hc; cases hc) h2 hr
       exact ⟨e1, e2, e3.trans hbl, e4⟩
 
+theorem fetchCore_clean (app : App) (c : Int) (fu : FetchUnit) (mmu : Model.Mmu.Mmu) (bus : BufferedBus Word)
+    (h : fu.toCleanPending = true) :
+    fetchCore app c fu mmu bus = fetchCore app c { fu with toCleanPending := false } mmu bus.clean := by
+  unfold fetchCore
+  simp only [h, if_true, Bool.false_eq_true, if_false]
+
+/-- the fetch unit, with a pending clean of the decode bus -/
+theorem fetchCore_pcs (app : App) (hsm : app.instrs.length < 250) (want : Nat) (c : Int)
+    (fu fu' : FetchUnit) (mmu mmu' : Model.Mmu.Mmu) (bus bus' : BufferedBus Word)
+    (hbl : bus.bufferLength = 2) (h : Pcs app want fu (if fu.toCleanPending then [] else bus.inside) 0)
+    (hr : fetchCore app c fu mmu bus = .ok (fu', mmu', bus')) :
+    Pcs app want fu' bus'.inside 0 ∧ fu'.toCleanPending = false ∧ bus'.bufferLength = 2 ∧ mmu'.l1d = mmu.l1d := by
+  cases hc : fu.toCleanPending with
+  | false =>
+    simp only [hc, Bool.false_eq_true, if_false] at h
+    exact fetchCore_pcs0 app hsm want c fu fu' mmu mmu' bus bus' hc hbl h hr
+  | true =>
+    simp only [hc, if_true] at h
+    rw [fetchCore_clean app c fu mmu bus hc] at hr
+    exact fetchCore_pcs0 app hsm want c { fu with toCleanPending := false } fu' mmu mmu' bus.clean bus' rfl hbl h hr
+
+theorem fuEmit_frame (app : App) (fu : FetchUnit) (bus : BufferedBus Word) (c : Int) :
+    (fuEmit app fu bus c).2.bufferLength = bus.bufferLength ∧ (fuEmit app fu bus c).1.toCleanPending = fu.toCleanPending := by
+  unfold fuEmit
+  refine ⟨rfl, ?_⟩
+  simp only
+  split <;> rfl
+
+/-- the fetch unit in any state keeps the shape of the decode bus and the data cache -/
+theorem coFetchLoop_frame (app : App) (c : Int) :
+    ∀ (n : Nat) (fu fu' : FetchUnit) (mmu mmu' : Model.Mmu.Mmu) (bus bus' : BufferedBus Word),
+    coFetchLoop app c n fu mmu bus = .ok (fu', mmu', bus') →
+    bus'.bufferLength = bus.bufferLength ∧ mmu'.l1d = mmu.l1d ∧ fu'.toCleanPending = fu.toCleanPending := by
+  intro n
+  induction n with
+  | zero =>
+    intro fu fu' mmu mmu' bus bus' hr
+    simp only [coFetchLoop, pure, Except.pure, Except.ok.injEq, Prod.mk.injEq] at hr
+    obtain ⟨rfl, rfl, rfl⟩ := hr
+    exact ⟨rfl, rfl, rfl⟩
+  | succ n ih =>
+    intro fu fu' mmu mmu' bus bus' hr
+    simp only [coFetchLoop] at hr
+    split at hr
+    · simp only [pure, Except.pure, Except.ok.injEq, Prod.mk.injEq] at hr
+      obtain ⟨rfl, rfl, rfl⟩ := hr
+      exact ⟨rfl, rfl, rfl⟩
+    · simp only [bind, Except.bind] at hr
+      split at hr
+      · cases hr
+      · rename_i v hv
+        obtain ⟨hit, mmu1⟩ := v
+        have hl1 : mmu1.l1d = mmu.l1d := Proofs.Mvp4.getFromL1I_l1d hv
+        simp only at hr
+        split at hr
+        · simp only [pure, Except.pure, Except.ok.injEq, Prod.mk.injEq] at hr
+          obtain ⟨rfl, rfl, rfl⟩ := hr
+          exact ⟨rfl, hl1, rfl⟩
+        · have := ih _ fu' mmu1 mmu' _ bus' hr
+          have hf := fuEmit_frame app fu bus c
+          exact ⟨this.1.trans hf.1, this.2.1.trans hl1, this.2.2.trans hf.2⟩
+
+theorem fetchCore_frame (app : App) (c : Int)
+    (fu fu' : FetchUnit) (mmu mmu' : Model.Mmu.Mmu) (bus bus' : BufferedBus Word)
+    (hr : fetchCore app c fu mmu bus = .ok (fu', mmu', bus')) :
+    bus'.bufferLength = bus.bufferLength ∧ mmu'.l1d = mmu.l1d ∧ fu'.toCleanPending = false := by
+  have key : ∀ (fu : FetchUnit) (bus : BufferedBus Word), fu.toCleanPending = false →
+      fetchCore app c fu mmu bus = .ok (fu', mmu', bus') →
+      bus'.bufferLength = bus.bufferLength ∧ mmu'.l1d = mmu.l1d ∧ fu'.toCleanPending = false := by
+    intro fu bus hcl hr
+    obtain ⟨fpc, ftc, fcm, fco, frc⟩ := fu
+    simp only at hcl
+    subst hcl
+    unfold fetchCore at hr
+    simp only [Bool.false_eq_true, if_false] at hr
+    cases hco : fco with
+    | done =>
+      simp only [hco, pure, Except.pure, Except.ok.injEq, Prod.mk.injEq] at hr
+      obtain ⟨rfl, rfl, rfl⟩ := hr
+      exact ⟨rfl, rfl, rfl⟩
+    | wait =>
+      simp only [hco] at hr
+      split at hr
+      · simp only [pure, Except.pure, Except.ok.injEq, Prod.mk.injEq] at hr
+        obtain ⟨rfl, rfl, rfl⟩ := hr
+        exact ⟨rfl, rfl, rfl⟩
+      · split at hr
+        · cases hr
+        · simp only [pure, Except.pure, Except.ok.injEq, Prod.mk.injEq] at hr
+          obtain ⟨rfl, rfl, rfl⟩ := hr
+          have hf := fuEmit_frame app ⟨fpc, false, fcm, .none, frc⟩ bus c
+          exact ⟨hf.1, rfl, hf.2⟩
+    | none =>
+      simp only [hco] at hr
+      split at hr
+      · simp only [pure, Except.pure, Except.ok.injEq, Prod.mk.injEq] at hr
+        obtain ⟨rfl, rfl, rfl⟩ := hr
+        exact ⟨rfl, rfl, rfl⟩
+      · have := coFetchLoop_frame app c _ _ fu' mmu mmu' bus bus' hr
+        exact ⟨this.1, this.2.1, this.2.2⟩
+  cases hc : fu.toCleanPending with
+  | false => exact key fu bus hc hr
+  | true =>
+    rw [fetchCore_clean app c fu mmu bus hc] at hr
+    exact key { fu with toCleanPending := false } bus.clean rfl hr
+
 /-! ### the decode unit -/
 
 theorem sl_of_get (app : App) (hsl : StraightLineRet app = true) (k : Nat) (i : Gen.Instr) (h : app.instrs[k]? = some i) :
@@ -166,9 +272,9 @@ theorem slr_of_sl (app : App) (h : StraightLine app = true) : StraightLineRet ap
   simp only [slInstr, slrInstr, Bool.and_eq_true] at this ⊢
   exact this.1
 
-theorem g_of_get (app : App) (hg : ProvedClass app = true) (k : Nat) (i : Gen.Instr) (h : app.instrs[k]? = some i) :
-    gInstr app i = true := by
-  simp only [ProvedClass, Bool.and_eq_true, List.all_eq_true] at hg
+theorem g_of_get (app : App) (hg : JClass app = true) (k : Nat) (i : Gen.Instr) (h : app.instrs[k]? = some i) :
+    jInstr app i = true := by
+  simp only [JClass, Bool.and_eq_true, List.all_eq_true] at hg
   exact hg.1 i (List.mem_of_getElem? h)
 
 theorem labelOf_none_of_not_branch (i : Gen.Instr) (h : i.instructionType.IsBranch = false) : labelOf i = none := by
@@ -201,6 +307,42 @@ theorem proved_of_branchOnly (app : App) (h : BranchOnly app = true) : ProvedCla
     simp only [brInstr, Bool.and_eq_true] at this
     exact this.1.1.2
 
+theorem jclass_of_proved (app : App) (h : ProvedClass app = true) : JClass app = true := by
+  simp only [ProvedClass, Bool.and_eq_true, Bool.or_eq_true, List.all_eq_true] at h
+  simp only [JClass, Bool.and_eq_true, Bool.or_eq_true, List.all_eq_true]
+  refine ⟨fun i hi => ?_, ?_⟩
+  · have := h.1 i hi
+    simp only [gInstr, Bool.and_eq_true] at this
+    simp only [jInstr, this.1.1, this.2, Bool.and_self]
+  · rcases h.2 with h2 | h2
+    · exact Or.inl h2
+    · by_cases hd : ∀ i ∈ app.instrs, (!isDivRem i.instructionType) = true
+      · exact Or.inl hd
+      · right
+        intro i hi
+        have h1 := h.1 i hi
+        simp only [gInstr, Bool.and_eq_true, Bool.not_eq_true'] at h1
+        have h3 := h2 i hi
+        simp only [Bool.not_eq_true'] at h3
+        simp only [Gen.InstructionType.IsBranch, h1.1.2, h3, Bool.or_self, Bool.not_false]
+
+theorem noJmp_of_proved (app : App) (h : ProvedClass app = true) : NoJmp app := by
+  simp only [ProvedClass, Bool.and_eq_true, List.all_eq_true] at h
+  simp only [NoJmp, List.all_eq_true]
+  intro i hi
+  have := h.1 i hi
+  simp only [gInstr, Bool.and_eq_true] at this
+  exact this.1.2
+
+theorem jclass_of_regOnlyWf (app : App) (h : RegOnlyWf app = true) : JClass app = true := by
+  simp only [RegOnlyWf, RegOnly, Bool.and_eq_true, List.all_eq_true] at h
+  simp only [JClass, Bool.and_eq_true, Bool.or_eq_true, List.all_eq_true]
+  refine ⟨fun i hi => ?_, Or.inl fun i hi => ?_⟩
+  · have h1 := h.1 i hi
+    simp only [jInstr, h1.1.1, h.2 i hi, Bool.and_self]
+  · have h1 := h.1 i hi
+    exact h1.1.2
+
 theorem instrAt_pcOf (app : App) (k : Nat) (hk : k < 2 ^ 20) (i : Gen.Instr) (h : app.instrs[k]? = some i) :
     instrAt app (pcOf k) = .ok i := by
   unfold instrAt
@@ -208,22 +350,29 @@ theorem instrAt_pcOf (app : App) (k : Nat) (hk : k < 2 ^ 20) (i : Gen.Instr) (h 
   have : ¬ ((k : Int) < 0) := by omega
   simp only [this, if_false, Int.toNat_natCast, h, pure, Except.pure]
 
-theorem decodeLoop_front (app : App) (hsm : app.instrs.length < 250) (hsl : ProvedClass app = true) (ctx : Model.Context)
+/-- what the decode loop has added: no jump and the pcs still continue (and the unit is as open as before), or a jump as the
+last one (and the unit is closed) -/
+def Added (app : App) (fu : FetchUnit) (want : Nat) (du du' : DecodeUnit) (D' : List Word) (added : List Runner) : Prop :=
+  (du'.pendingBranchResolution = du.pendingBranchResolution ∧ Pcs app want fu D' 0 ∧ ∀ r ∈ added, isJ r = false) ∨
+  (du'.pendingBranchResolution = true ∧ ∃ pre j, added = pre ++ [j] ∧ isJ j = true ∧ ∀ r ∈ pre, isJ r = false)
+
+theorem decodeLoop_front (app : App) (hsm : app.instrs.length < 250) (ctx : Model.Context)
     (c : Int) (fu : FetchUnit) (k : Nat) :
     ∀ (n : Nat) (du du' : DecodeUnit) (inBus inBus' : BufferedBus Word) (outBus outBus' : BufferedBus Runner),
     Chain app k outBus.inside → k + outBus.inside.length ≤ app.instrs.length →
     Pcs app (k + outBus.inside.length) fu inBus.inside 0 →
     decodeLoop app ctx c n du inBus outBus = .ok (du', inBus', outBus') →
     Chain app k outBus'.inside ∧ k + outBus'.inside.length ≤ app.instrs.length ∧
-    Pcs app (k + outBus'.inside.length) fu inBus'.inside 0 ∧ du'.pendingBranchResolution = du.pendingBranchResolution ∧
-    inBus'.bufferLength = inBus.bufferLength := by
+    inBus'.bufferLength = inBus.bufferLength ∧
+    ∃ added, outBus'.inside = outBus.inside ++ added ∧
+      Added app fu (k + outBus'.inside.length) du du' inBus'.inside added := by
   intro n
   induction n with
   | zero =>
     intro du du' inBus inBus' outBus outBus' h1 h2 h3 hr
     simp only [decodeLoop, pure, Except.pure, Except.ok.injEq, Prod.mk.injEq] at hr
     obtain ⟨rfl, rfl, rfl⟩ := hr
-    exact ⟨h1, h2, h3, rfl, rfl⟩
+    exact ⟨h1, h2, rfl, [], by simp, Or.inl ⟨rfl, h3, fun r hr => by cases hr⟩⟩
   | succ n ih =>
     intro du du' inBus inBus' outBus outBus' h1 h2 h3 hr
     simp only [decodeLoop] at hr
@@ -231,7 +380,7 @@ theorem decodeLoop_front (app : App) (hsm : app.instrs.length < 250) (hsl : Prov
     | nil =>
       simp only [get_none _ hq, pure, Except.pure, Except.ok.injEq, Prod.mk.injEq] at hr
       obtain ⟨rfl, rfl, rfl⟩ := hr
-      exact ⟨h1, h2, h3, rfl, rfl⟩
+      exact ⟨h1, h2, rfl, [], by simp, Or.inl ⟨rfl, h3, fun r hr => by cases hr⟩⟩
     | cons p q =>
       simp only [get_some _ p q hq] at hr
       obtain ⟨h0, a1, a2, a3, a4, a5, a6, a7⟩ := h3
@@ -246,7 +395,7 @@ theorem decodeLoop_front (app : App) (hsm : app.instrs.length < 250) (hsl : Prov
       by_cases hge : app.instrs.length ≤ h0
       · simp only [hge, if_true, pure, Except.pure, Except.ok.injEq, Prod.mk.injEq] at hr
         obtain ⟨rfl, rfl, rfl⟩ := hr
-        refine ⟨h1, h2, ⟨h0 + 1, a1', ?_, ?_, ?_, ?_, ?_, ?_⟩, rfl, rfl⟩
+        refine ⟨h1, h2, rfl, [], by simp, Or.inl ⟨rfl, ⟨h0 + 1, a1', ?_, ?_, ?_, ?_, ?_, ?_⟩, fun r hr => by cases hr⟩⟩
         · rw [hin', a2]; congr 1; omega
         · right
           rcases a3 with a3 | a3
@@ -255,7 +404,7 @@ theorem decodeLoop_front (app : App) (hsm : app.instrs.length < 250) (hsl : Prov
         · rw [hin']; omega
         · rw [hin']; intro hc; have := a5 hc; omega
         · rw [hin']; intro hc; have := a6 hc; omega
-        · rw [hin']; intro hc; have := a7 hc; omega
+        · rw [hin']; intro hc hj; have := a7 hc hj; omega
       · simp only [hge, if_false, bind, Except.bind] at hr
         have hw : h0 = k + outBus.inside.length := by
           rcases a3 with a3 | a3
@@ -263,24 +412,42 @@ theorem decodeLoop_front (app : App) (hsm : app.instrs.length < 250) (hsl : Prov
           · omega
         obtain ⟨i, hi⟩ := get_lt app.instrs h0 (by omega)
         rw [hp, instrAt_pcOf app h0 hh i hi] at hr
-        have hsli := g_of_get app hsl h0 i hi
-        simp only [gInstr, Bool.and_eq_true, Bool.not_eq_true'] at hsli
-        obtain ⟨⟨_, hub⟩, _⟩ := hsli
-        simp only [hub, Bool.false_eq_true, if_false] at hr
-        have := ih _ du' _ inBus' _ outBus'
-          (by rw [inside_add, chain_append]; exact ⟨h1, ⟨⟨by rw [← hw], by rw [← hw]; exact hi⟩, trivial⟩⟩)
-          (by rw [inside_add]; simp only [List.length_append, List.length_cons, List.length_nil]; omega)
-          (by rw [inside_add]
-              simp only [List.length_append, List.length_cons, List.length_nil]
-              refine ⟨h0 + 1, a1', ?_, Or.inl (by omega), ?_, ?_, ?_, ?_⟩
-              · rw [hin', a2]; congr 1; omega
-              · rw [hin']; omega
-              · rw [hin']; intro hc; have := a5 hc; omega
-              · rw [hin']; intro hc; have := a6 hc; omega
-              · rw [hin']; intro hc; have := a7 hc; omega)
-          hr
-        refine ⟨this.1, this.2.1, this.2.2.1, ?_, this.2.2.2.2⟩
-        rw [this.2.2.2.1]; split <;> rfl
+        simp only at hr
+        have hch : Chain app k (outBus.add ⟨i, pcOf h0, pcOf h0 + ctx.sequenceID * 1000#32⟩ c).inside := by
+          rw [inside_add, chain_append]; exact ⟨h1, ⟨⟨by rw [← hw], by rw [← hw]; exact hi⟩, trivial⟩⟩
+        have hlen : k + (outBus.add ⟨i, pcOf h0, pcOf h0 + ctx.sequenceID * 1000#32⟩ c).inside.length ≤ app.instrs.length := by
+          rw [inside_add]; simp only [List.length_append, List.length_cons, List.length_nil]; omega
+        cases hj : i.instructionType.IsUnconditionalBranch with
+        | true =>
+          simp only [hj, if_true, pure, Except.pure, Except.ok.injEq, Prod.mk.injEq] at hr
+          obtain ⟨rfl, rfl, rfl⟩ := hr
+          refine ⟨hch, hlen, rfl, [⟨i, pcOf h0, pcOf h0 + ctx.sequenceID * 1000#32⟩], inside_add _ _ _, Or.inr ⟨rfl, [], _, rfl, hj, fun r hr => by cases hr⟩⟩
+        | false =>
+          simp only [hj, Bool.false_eq_true, if_false] at hr
+          obtain ⟨t1, t2, t3, added, t4, t5⟩ := ih _ du' _ inBus' _ outBus' hch hlen
+            (by rw [inside_add]
+                simp only [List.length_append, List.length_cons, List.length_nil]
+                refine ⟨h0 + 1, a1', ?_, Or.inl (by omega), ?_, ?_, ?_, ?_⟩
+                · rw [hin', a2]; congr 1; omega
+                · rw [hin']; omega
+                · rw [hin']; intro hc; have := a5 hc; omega
+                · rw [hin']; intro hc; have := a6 hc; omega
+                · rw [hin']; intro hc hj; have := a7 hc hj; omega)
+            hr
+          refine ⟨t1, t2, t3, ⟨i, pcOf h0, pcOf h0 + ctx.sequenceID * 1000#32⟩ :: added, ?_, ?_⟩
+          · rw [t4, inside_add, List.append_assoc]; rfl
+          · rcases t5 with ⟨u1, u2, u3⟩ | ⟨u1, pre, j, u2, u3, u4⟩
+            · refine Or.inl ⟨?_, u2, ?_⟩
+              · rw [u1]; split <;> rfl
+              · intro r hr
+                rcases List.mem_cons.mp hr with rfl | hr
+                · exact hj
+                · exact u3 r hr
+            · refine Or.inr ⟨u1, _ :: pre, j, by rw [u2]; rfl, u3, ?_⟩
+              intro r hr
+              rcases List.mem_cons.mp hr with rfl | hr
+              · exact hj
+              · exact u4 r hr
 
 /-- every runner the decode unit adds carries the sequence id `pc + ctx.sequenceID * 1000` -/
 theorem decodeLoop_seq (app : App) (ctx : Model.Context) (c : Int) :
@@ -325,6 +492,41 @@ theorem decodeLoop_seq (app : App) (ctx : Model.Context) (c : Int) :
               · exact Or.inl h
               · simp only [List.mem_singleton] at h; subst h; exact Or.inr rfl
             · exact Or.inr h
+
+/-- the decode unit only appends to the buffer of the control bus -/
+theorem decodeLoop_queue (app : App) (ctx : Model.Context) (c : Int) :
+    ∀ (n : Nat) (du du' : DecodeUnit) (inBus inBus' : BufferedBus Word) (outBus outBus' : BufferedBus Runner),
+    decodeLoop app ctx c n du inBus outBus = .ok (du', inBus', outBus') → outBus'.queue = outBus.queue := by
+  intro n
+  induction n with
+  | zero =>
+    intro du du' inBus inBus' outBus outBus' hr
+    simp only [decodeLoop, pure, Except.pure, Except.ok.injEq, Prod.mk.injEq] at hr
+    obtain ⟨_, _, rfl⟩ := hr
+    rfl
+  | succ n ih =>
+    intro du du' inBus inBus' outBus outBus' hr
+    simp only [decodeLoop] at hr
+    cases hq : inBus.queue with
+    | nil =>
+      simp only [get_none _ hq, pure, Except.pure, Except.ok.injEq, Prod.mk.injEq] at hr
+      obtain ⟨_, _, rfl⟩ := hr
+      rfl
+    | cons p q =>
+      simp only [get_some _ p q hq] at hr
+      split at hr
+      · simp only [pure, Except.pure, Except.ok.injEq, Prod.mk.injEq] at hr
+        obtain ⟨_, _, rfl⟩ := hr
+        rfl
+      · simp only [bind, Except.bind] at hr
+        split at hr
+        · cases hr
+        · rename_i i hi
+          split at hr
+          · simp only [pure, Except.pure, Except.ok.injEq, Prod.mk.injEq] at hr
+            obtain ⟨_, _, rfl⟩ := hr
+            rfl
+          · exact (ih _ du' _ inBus' _ outBus' hr).trans rfl
 
 /-! ### the control unit -/
 
@@ -513,5 +715,28 @@ theorem controlCycle_spec (s : State) (hp : s.cuPendings.items.length ≤ 1) :
       { ctx := s.ctx, inBus := s.controlBus, outBus := s.executeBus, pendings := s.cuPendings,
         remaining := s.executeBus.remainingToAdd, pushed := 0 } s.cuPendings.items rfl hp
     exact ⟨pushed, i1, i2, i3, ⟨rfl, rfl, rfl, rfl, rfl, rfl, rfl, rfl, rfl, rfl, rfl, rfl⟩, i4⟩
+
+/-- with nothing waiting in its queue and nothing readable on the control bus, the control unit does nothing -/
+theorem controlCycle_quiet (s : State) (h1 : s.cuPendings.items = []) (h2 : s.controlBus.queue = []) :
+    (controlCycle s).executeBus = s.executeBus ∧ (controlCycle s).cuPendings = s.cuPendings ∧
+    (controlCycle s).controlBus.queue = [] := by
+  rw [controlCycle_eq]
+  split
+  · exact ⟨rfl, rfl, h2⟩
+  · simp only [h1, cuLoops, cuPendingLoop, Bool.false_eq_true, if_false, cuBusLoop]
+    split
+    · exact ⟨rfl, rfl, h2⟩
+    · simp only [get_none _ h2]
+      exact ⟨trivial, trivial, h2⟩
+
+theorem chain_mem (app : App) : ∀ (l : List Runner) (k : Nat), Chain app k l → ∀ r ∈ l, r.instr ∈ app.instrs := by
+  intro l
+  induction l with
+  | nil => intro k _ r hr; cases hr
+  | cons x xs ih =>
+    intro k h r hr
+    rcases List.mem_cons.mp hr with rfl | hr
+    · exact List.mem_of_getElem? h.1.2
+    · exact ih (k + 1) h.2 r hr
 
 end Proofs.Mvp60Sl
